@@ -5,6 +5,7 @@ import (
 	"bytes"
 	"errors"
 	"fmt"
+	"math"
 	"regexp"
 	"strconv"
 	"strings"
@@ -220,6 +221,9 @@ func parseWeight(s string) (float64, error) {
 	f, err := strconv.ParseFloat(s, 64)
 	if err != nil {
 		return 0.0, errors.New("syntax error: weight value invalid")
+	}
+	if math.IsNaN(f) || math.IsInf(f, 0) {
+		return 0.0, errors.New("syntax error: weight value must be finite")
 	}
 	return f, nil
 }
